@@ -4,11 +4,15 @@
 #   patch applies; demo fails with it and passes without it; the pinned suite loses no test.
 # On success copies patch/demo/meta to /verif/seeded/<seed-id>/ and writes confirm.json.
 set -u
-src="$1"; n="$2"; sid="$3"
-W=/tmp/seedwt/$sid
-rm -rf "$W"; git -C /repo worktree prune
-git -C /repo worktree add --detach "$W" HEAD >/dev/null 2>&1 || { echo "worktree add failed"; exit 2; }
-cp -r /repo/target "$W/target" 2>/dev/null
+src="$1"; n="$2"; sid="$3"; slot="${4:-A}"
+# persistent worktree per slot (warm incremental build); reset to /repo HEAD before each use
+W=/tmp/seedwt/slot$slot
+if [ ! -d "$W/.git" ] && [ ! -f "$W/.git" ]; then
+  git -C /repo worktree prune
+  git -C /repo worktree add --detach "$W" HEAD >/dev/null 2>&1 || { echo "worktree add failed"; exit 2; }
+  cp -r /repo/target "$W/target" 2>/dev/null
+fi
+git -C "$W" checkout -q -- . ; git -C "$W" clean -fdq -e target; git -C "$W" checkout -q --detach "$(git -C /repo rev-parse HEAD)"
 meta="$src/meta$n.json"; patch="$src/patch$n.diff"; demo="$src/demo$n.rs"
 demo_path=$(python3 -c "import json;print(json.load(open('$meta'))['demo_path'])")
 demo_cmd=$(python3 -c "import json;print(json.load(open('$meta'))['demo_cmd'])")
@@ -18,7 +22,7 @@ cd "$W" || exit 2
 mkdir -p "$(dirname "$demo_path")"; cp "$demo" "$demo_path"
 # demo passes on clean tree
 if (CARGO_NET_OFFLINE=true eval "$demo_cmd" >>"$log" 2>&1); then res "demo_passes_without_patch=true"; cleanok=1; else res "demo_passes_without_patch=false"; cleanok=0; fi
-if git apply "$patch" >>"$log" 2>&1; then res "patch_applies=true"; else res "patch_applies=false"; git -C /repo worktree remove --force "$W"; exit 1; fi
+if git apply "$patch" >>"$log" 2>&1; then res "patch_applies=true"; else res "patch_applies=false"; exit 1; fi
 if (CARGO_NET_OFFLINE=true eval "$demo_cmd" >>"$log" 2>&1); then res "demo_fails_with_patch=false"; failok=0; else res "demo_fails_with_patch=true"; failok=1; fi
 rm -f "$demo_path"
 python3 /verif/tools/suite_diff.py "$W" --fast >>"$log" 2>&1
@@ -36,5 +40,6 @@ m['confirmed']={'demo_passes_without_patch':True,'demo_fails_with_patch':True,'s
 json.dump(m,open('/verif/seeded/$sid/meta.json','w'),indent=1)
 PY
 fi
-cd /; git -C /repo worktree remove --force "$W" >/dev/null 2>&1; rm -rf "$W"; git -C /repo worktree prune
+cd "$W" && git checkout -q -- . && git clean -fdq -e target
+cd /
 res "confirmed=$ok"
